@@ -397,3 +397,86 @@ Proof.
     destruct X1 as [(p' & q' & Ec) _]. destruct X2 as [_ X2].
     destruct (X2 p' t1 q' Ec) as [Et _]. apply NE. exact Et.
 Qed.
+
+(* ---- the accepting branch: [why] names it, [justified] says what it means ---- *)
+
+Lemma existsb_find : forall (A : Type) (f : A -> bool) l,
+  existsb f l = true -> exists x, find f l = Some x /\ In x l /\ f x = true.
+Proof.
+  intros A f l H. destruct (find f l) as [x|] eqn:F.
+  - exists x. destruct (find_some _ _ F) as [I Fx]. auto.
+  - exfalso. apply existsb_exists in H. destruct H as (x & I & Fx).
+    pose proof (find_none _ _ F x I) as N. congruence.
+Qed.
+
+Lemma find_existsb : forall (A : Type) (f : A -> bool) l x,
+  find f l = Some x -> existsb f l = true.
+Proof.
+  intros A f l x F. destruct (find_some _ _ F) as [I Fx]. apply existsb_exists. exists x. auto.
+Qed.
+
+Lemma common_lock_covers : forall a b, common_lock a b = existsb (lock_covers b) (s_locks a).
+Proof. reflexivity. Qed.
+Lemma ordered_by_orders : forall tb a b, ordered_by tb a b = existsb (orders tb a b) (eff_before a).
+Proof. reflexivity. Qed.
+Lemma both_po_same_closer : forall a b, both_po a b = existsb (same_closer b) (eff_before a).
+Proof. reflexivity. Qed.
+
+(* [why] answers exactly when [compatible] accepts *)
+Theorem compatible_iff_why : forall tb a b,
+  compatible tb a b = true <-> exists r, why tb a b = Some r.
+Proof.
+  intros tb a b. unfold compatible, why.
+  rewrite common_lock_covers, !ordered_by_orders, both_po_same_closer. split.
+  - intros H.
+    destruct (existsb (lock_covers b) (s_locks a)) eqn:E1.
+    { destruct (existsb_find _ _ _ E1) as (x & -> & _). eexists. reflexivity. }
+    destruct (find (lock_covers b) (s_locks a)) as [p|] eqn:F1; [eexists; reflexivity|].
+    destruct (existsb (orders tb a b) (eff_before a)) eqn:E2.
+    { destruct (existsb_find _ _ _ E2) as (x & -> & _). eexists. reflexivity. }
+    destruct (find (orders tb a b) (eff_before a)) as [p|] eqn:F2; [eexists; reflexivity|].
+    destruct (existsb (orders tb b a) (eff_before b)) eqn:E3.
+    { destruct (existsb_find _ _ _ E3) as (x & -> & _). eexists. reflexivity. }
+    destruct (find (orders tb b a) (eff_before b)) as [p|] eqn:F3; [eexists; reflexivity|].
+    destruct (existsb_find _ _ _ H) as (x & -> & _). eexists. reflexivity.
+  - intros (r & H).
+    destruct (find (lock_covers b) (s_locks a)) as [p|] eqn:F1.
+    { rewrite (find_existsb _ _ _ _ F1). reflexivity. }
+    destruct (existsb (lock_covers b) (s_locks a)); [reflexivity|].
+    destruct (find (orders tb a b) (eff_before a)) as [p|] eqn:F2.
+    { rewrite (find_existsb _ _ _ _ F2). reflexivity. }
+    destruct (existsb (orders tb a b) (eff_before a)); [reflexivity|].
+    destruct (find (orders tb b a) (eff_before b)) as [p|] eqn:F3.
+    { rewrite (find_existsb _ _ _ _ F3). reflexivity. }
+    destruct (existsb (orders tb b a) (eff_before b)); [reflexivity|].
+    destruct (find (same_closer b) (eff_before a)) as [p|] eqn:F4; [|discriminate H].
+    exact (find_existsb _ _ _ _ F4).
+Qed.
+
+Theorem compatible_justified : forall tb a b, compatible tb a b = true -> justified tb a b.
+Proof.
+  intros tb a b Cp. unfold compatible in Cp.
+  destruct (common_lock a b) eqn:Ck; [|destruct (ordered_by tb a b) eqn:Ck1; [|destruct (ordered_by tb b a) eqn:Ck2]].
+  - left. exact (common_lock_spec _ _ Ck).
+  - right. left. exact (ordered_by_spec _ _ _ Ck1).
+  - right. right. left. exact (ordered_by_spec _ _ _ Ck2).
+  - right. right. right. unfold both_po in Cp. apply existsb_exists in Cp. destruct Cp as (x & Ix & Ex).
+    destruct x as [c|c l]; [|discriminate Ex].
+    apply existsb_exists in Ex. destruct Ex as (y & Iy & Ey).
+    destruct y as [c'|c' l']; simpl in Ey; [|discriminate Ey]. apply String.eqb_eq in Ey. subst c'.
+    exists c. split; assumption.
+Qed.
+
+(* the table-level statement: under the check, every conflicting pair of rows of the table is ordered by a
+   common lock, or by a close / go statement / WaitGroup / publication edge one side precedes and the
+   other has observed, or both rows belong to one thread *)
+Theorem check_justifies : forall tb, check tb = true ->
+  forall a b, In a (t_sites tb) -> In b (t_sites tb) -> conflict a b = true ->
+  justified tb a b /\ exists r, why tb a b = Some r.
+Proof.
+  intros tb Ck a b Ia Ib Cn. unfold check, check_except in Ck.
+  rewrite forallb_forall in Ck. specialize (Ck a Ia). rewrite forallb_forall in Ck. specialize (Ck b Ib).
+  unfold pair_ok in Ck. rewrite Cn in Ck.
+  destruct (compatible tb a b) eqn:Cp; [|discriminate Ck].
+  split; [exact (compatible_justified _ _ _ Cp)|exact (proj1 (compatible_iff_why _ _ _) Cp)].
+Qed.
